@@ -220,6 +220,12 @@ def r154(prog, chk):
     # (e) the recursion reaches bases first and 'processed' stops repeated work
     rec = [c for c in calls_named(f, "_propagate_glyph_anchors")]
     ok = len(rec) == 1 and prog.cfg(f).exists_path(prog.cfg(f).node_of(rec[0]), [prog.cfg(f).node_of(add[0])])
+    if ok:
+        # every component's base is resolved first, marks included (a mark that is itself a composite gets its own anchors that way):
+        # inside the component loop the recursive call depends on no test
+        lp_ = [a_ for a_ in ix.ancestors(rec[0]) if isinstance(a_, ast.For)]
+        inner_ = [g for g in may_conds(prog, f, rec[0]) if g.kind in ("if", "boolop", "ifexp") and lp_ and any(a_ is lp_[0] for a_ in ix.ancestors(g.loc))]
+        ok = bool(lp_) and T(lp_[0].iter).endswith(".components") and not inner_
     chk.ob("R15.4", f"{f.short}|bases are processed before their anchors are read", ok, where(f, rec[0]) if rec else where(f), detail="recursive call precedes the collection", nontrivial=False,
            message=f"{f.short}: a composite reads its base's anchors before the base itself received propagated anchors")
     # (f) a component is a base or a mark, never both: the two work lists partition the components
@@ -377,6 +383,8 @@ MUTANTS = [
     M("nested offset axes swapped", "ufo2ft/filters/flattenComponents.py", "_flattenComponent", "flat_tr.translate(tr.dx, tr.dy)", "flat_tr.translate(tr.dy, tr.dx)", rule="R15.3"),
     M("component bounds measured on the untransformed base glyph (seeded C15e)", "ufo2ft/filters/propagateAnchors.py", "_bounds",
       "component.draw(pen)", "glyph_set[component.baseGlyph].draw(pen)", rule="R15.4"),
+    M("mark components are not resolved before their anchors are read (seeded C15f)", "ufo2ft/filters/propagateAnchors.py", "_propagate_glyph_anchors",
+      "_propagate_glyph_anchors(glyphSet, glyph, processed, modified, categories)", "if not any(a.name.startswith('_') for a in glyph.anchors):\n    _propagate_glyph_anchors(glyphSet, glyph, processed, modified, categories)", rule="R15.4"),
     M("promoted mark stays in the mark list (mutation scan k=146)", "ufo2ft/filters/propagateAnchors.py", "_propagate_glyph_anchors",
       "mark_components.remove(component)", "pass", rule="R15.4"),
     M("propagation overrides existing anchors", "ufo2ft/filters/propagateAnchors.py", "_propagate_glyph_anchors",
